@@ -302,6 +302,16 @@ func (c *ctx) roundTrip(what string, in, stream []byte, crc bool, src lzwork.Sou
 		res.Total == int64(len(in)) && bytes.Equal(res.Out, in) {
 		c.o.Count("roundtrips_identical", 1)
 		c.o.Count("bytes_compared", int64(len(in)))
+		if (len(in)+len(stream))%4 == 0 {
+			// the caller knows the length (it is in the proposal) and reads exactly that many bytes - io.ReadFull, io.CopyN -
+			// and closes without ever asking for the end-of-stream result: everything was read, Close must say so
+			ex := lzwork.Decompress(stream, crc, src, rp, lzwork.Limits{StopAfter: int64(len(in)), Keep: len(in) + 256, MaxBytes: int64(len(in)) + 4096})
+			c.o.Count("exact_length_reads_closed_without_reading_eof", 1)
+			if ex.Panic != nil || ex.NewErr != nil || ex.ReadErr != nil || ex.CloseErr != nil || ex.Total != int64(len(in)) || !bytes.Equal(ex.Out, in) {
+				c.violate("exact-read-then-close:"+m, map[string]any{"input": what, "input_hex": lzwork.Hex(in, 200), "stream_hex": lzwork.Hex(stream, 200), "mode": m, "read_plan": rp, "source": src},
+					"%s: reading exactly the %d bytes of the message and closing (no further Read) gives read error %v, Close %v, %d bytes (panic: %v)", what, len(in), ex.ReadErr, ex.CloseErr, ex.Total, ex.Panic != nil)
+			}
+		}
 		return
 	}
 	det := map[string]any{"input": what, "input_hex": lzwork.Hex(in, 200), "stream_hex": lzwork.Hex(stream, 200), "mode": m, "read_plan": rp, "source": src}
